@@ -24,15 +24,21 @@ ASSUMPTIONS = [
     "append-only report files (minisanity.txt, counting_report.txt) are not compared (contain wall-clock time)",
 ]
 
-SCHEDULES = {"s222": [2, 2, 2], "s022": [0, 2, 2], "s202": [2, 0, 2], "s312": [3, 1, 2], "s220": [2, 2, 0]}
+SCHEDULES = {"s222": [2, 2, 2], "s022": [0, 2, 2], "s202": [2, 0, 2], "s312": [3, 1, 2], "s220": [2, 2, 0],
+             # four iterations with the stochasticity of iteration 0 re-used in iterations 1..3 (fresh_stochasticity=False)
+             "s2222f": [2, 2, 2, 2]}
+FRESH = {"s2222f": [True, False, False, False]}
 
 
 def scenarios(tier):
     out = []
-    scheds = ["s202", "s312"] if tier == "quick" else list(SCHEDULES)
+    scheds = ["s202", "s312"] if tier == "quick" else [k for k in SCHEDULES if k != "s2222f"]
     for strat in ("all", "latest"):
         for s in scheds:
             out.append("%s-%s" % (strat, s))
+    out.append("all-s2222f")
+    if tier != "quick":
+        out.append("latest-s2222f")
     return out
 
 
@@ -48,6 +54,7 @@ def _scenario_run(name, odir, resume, total=None):
     sl, mean = ift.optimize_kl(lh, len(ns) if total is None else total, lambda i: ns[i], mini, ic_samp,
                                output_directory=odir, save_strategy=strat, resume=resume,
                                plot_energy_history=False, plot_minisanity_history=False,
+                               fresh_stochasticity=(lambda i, fr=FRESH.get(s): True if fr is None else fr[i]),
                                return_final_position=True, comm=None)
     return models_cl.samplelist_digest(sl, mean)
 
